@@ -202,3 +202,19 @@ also("C18", SIZE_GUARD + " (R-PREDICATE-WITNESS) IsEmpty tests the length; HasAn
 also("C19", "The constructor stores the requested size unchanged as the buffer limit and the halving loop has an exit on an empty buffer.")
 also("C20", "(R-TOKEN-CASES) text runs are compared only when neither head is numeric and values only when both are, on every path; (R-DIGIT-BASE) the radix equals the number of characters the digit predicate accepts; "
      "(R-UTF8-CLASS) Trunc's mask tests denote the UTF-8 classes (continuation exactly 0x80..0xBF; lead test contains 0xC2..0xF4 and no ASCII) from position 1 on; (R-ZERO-LEN) Zero returns len(data).")
+
+# ---- sixth round
+also("C01", "(R-EXTREME-LEAF) Min/Max return the key of a node whose small-/large-side child is nil at the return; (R-FRACTION-RANGE) the balance factors New admits map onto the whole range [1/2, 1] of weight fractions.")
+also("C02", "The scapegoat test and the 'too deep' test of a new leaf are equally strict; the admitted balance factors map onto [1/2, 1].")
+also("C03", "R-YIELD covers everything Cursor.Inorder hands its callback on to.")
+also("C05", "(R-MOVE-NONNIL) the position callback is never set to nil; (R-EMPTY-LEN) IsEmpty tests what Len returns.")
+also("C06", "(R-MOVE-NONNIL) the position callback is never set to nil; an index entry is deleted together with the removal of that key's own heap element.")
+also("C07", "(R-EMPTY-LEN) IsEmpty tests the element count Len returns, not the buffer.")
+also("C08", "Clear's loop ends on the entry count (an assertion that panics is not what establishes emptiness); the heap removal paired with an index deletion removes that key's own element; Remove and Peek of the heap refuse the same offsets.")
+also("C10", "The invalidator's loop ends only when the entry variable is nil. (R-EMPTY-LEN) Stack.IsEmpty tests what Len returns.")
+also("C12", "(R-NO-IFACE-EQ) elements of a non-comparable type parameter are never compared through interfaces; (R-SIZE-GUARD) a do-nothing exit on the length of an input covers the empty input only.")
+also("C13", "(R-BOUND-SIDE) the bound is strict; (R-MERGE-TAIL) the output built so far is consulted at its last element; (R-TRIM-AMOUNT) a context span is cut by an amount a range bound is adjusted by.")
+also("C14", "(R-SUCCESS-AT-EOF) a multi-patch reader reports success only behind an end-of-input edge; (R-GUARD-SIDE) a guarded section of the context format is guarded by the side-specific opcode its switch writes.")
+also("C18", "(R-ARG-FLOW) AddAll's nil-receiver branch clones its argument; every result of Append is built on the slice it was given.")
+also("C19", "(R-PASS-UNIFORM) in the removal pass the decision to remove depends on random bits only; (R-REFILL-COUNTER) the refill is triggered by the countdown of unused bits; (R-RECV-POINTER) methods assigning receiver fields have pointer receivers.")
+also("C20", "(R-TOKEN-OK) the numeric parser's ok flag tests the cut position; digits are folded in with a radix.")
